@@ -33,6 +33,8 @@ type mdoc struct {
 	K       int
 	Vals    map[string]any // field name -> parsed JSON value (absent/null = nil); owner -> docID string
 	Deleted bool
+	// Partial: a partial-document update that did not carry every indexed field was applied
+	Partial bool
 }
 
 type outcome struct {
@@ -312,6 +314,12 @@ func (r *runner) applyWrite(what string, vals map[string]any, self string, check
 		r.label("write:error-on-both")
 		return false, nil
 	case errA != nil:
+		if d := r.byID[self]; strings.Contains(errA.Error(), "corrupted index") && d != nil && d.Partial {
+			return false, hx.Failf(sigPartialUpdate, "%s fails only on the indexed twin: %v (an earlier partial-document update of this document rewrote the entries of the indexed fields it did not carry)", what, errA)
+		}
+		if strings.Contains(errA.Error(), "corrupted index") && r.hasJSONIndex() && self != "" && hasDuplicateJSONArrayElements(r.byID[self].Vals["j"]) {
+			return false, hx.Failf(sigJSONArrayDupCorrupted, "%s fails only on the indexed twin: %v (the stored JSON value has an array with equal elements: they share one index key, which is written twice and can be deleted only once)", what, errA)
+		}
 		return false, hx.Failf("C07/write/error-only-with-index", "%s fails only on the indexed twin: %v", what, errA)
 	default:
 		return false, hx.Failf("C07/write/error-only-twin", "%s fails only on the twin without indexes: %v", what, errB)
@@ -395,6 +403,35 @@ func (r *runner) omittedIndexedFields(patch map[string]any) []string {
 		}
 	}
 	return out
+}
+
+// hasDuplicateJSONArrayElements reports whether some array inside the JSON value holds two equal scalars.
+func hasDuplicateJSONArrayElements(v any) bool {
+	switch x := v.(type) {
+	case map[string]any:
+		for _, e := range x {
+			if hasDuplicateJSONArrayElements(e) {
+				return true
+			}
+		}
+	case []any:
+		seen := map[string]bool{}
+		for _, e := range x {
+			switch e.(type) {
+			case map[string]any, []any:
+				if hasDuplicateJSONArrayElements(e) {
+					return true
+				}
+			default:
+				k := hx.Canon(e)
+				if seen[k] {
+					return true
+				}
+				seen[k] = true
+			}
+		}
+	}
+	return false
 }
 
 func overlay(old, patch map[string]any) map[string]any {
@@ -530,6 +567,9 @@ func (r *runner) history() *hx.Failure {
 			if ok {
 				d.Vals = nv
 				r.label("op:" + op.Kind + "-applied")
+			}
+			if ok && op.Kind == "pupdate" && len(r.omittedIndexedFields(pv)) > 0 {
+				d.Partial = true
 			}
 			if ok && op.Kind == "pupdate" {
 				// the index entries must still describe the whole document
